@@ -127,6 +127,30 @@ fn directed(cfg: &Cfg) {
         msgs.push((format!("set_config o={o:#x} s={s} fl={fl} payload={plen}"), spec::msg(spec::fe::SET_CONFIG, 1, &spec::p_config(o, s, fl, &vec![0u8; plen]))));
         msgs.push((format!("get_config o={o:#x} s={s} fl={fl} payload={plen}"), spec::msg(spec::fe::GET_CONFIG, 1, &spec::p_config(o, s, fl, &vec![0u8; plen]))));
     }
+    // memory tables whose region count is out of range or disagrees with the body (no descriptors attached)
+    {
+        let one = spec::Region { gpa: 0x1000, size: 0x1000, uaddr: 0x7000_0000, off: 0 };
+        let full = spec::p_mem_table(&[one]);
+        let region_bytes = full[8..].to_vec();
+        let table = |n: u32, pad: u32, regions: usize| {
+            let mut b = spec::W::new().u32(n).u32(pad).done();
+            for _ in 0..regions {
+                b.extend_from_slice(&region_bytes);
+            }
+            b
+        };
+        for (what, body) in [
+            ("mem_table regions=0 body=8", table(0, 0, 0)),
+            ("mem_table regions=0 padding=1", table(0, 1, 0)),
+            ("mem_table regions=0 with-one-region-body", table(0, 0, 1)),
+            ("mem_table regions=1 body=8", table(1, 0, 0)),
+            ("mem_table regions=2 with-one-region-body", table(2, 0, 1)),
+            ("mem_table regions=33", table(33, 0, 33)),
+            ("mem_table regions=0xffffffff", table(u32::MAX, 0, 1)),
+        ] {
+            msgs.push((what.to_string(), spec::msg(spec::fe::SET_MEM_TABLE, 1, &body)));
+        }
+    }
     for (what, m) in msgs {
         be.lock().unwrap().log.clear();
         common::sys::send_all(peer.as_raw_fd(), &m, &[]).expect("send");
